@@ -10,7 +10,7 @@ import json, os, random, re, shutil, sys, time
 sys.path.insert(0, os.path.dirname(os.path.abspath(__file__)))
 import vlib, fam
 
-CLAUSES = ["LocalUnaffected", "OthersUnaffected", "NoHang", "AllocBounded", "DecoderNoPanic", "ReencodeStable"]
+CLAUSES = ["LocalUnaffected", "OthersUnaffected", "NoHang", "QueueNotStuck", "AllocBounded", "DecoderNoPanic", "ReencodeStable"]
 FRAMES = ["pid", "name", "alias", "call", "callname", "exit", "any", "z"]
 VALUES = ["int", "string", "binary", "atom", "float", "pid", "ref", "alias", "slice", "slice2", "map", "mapany", "anys", "struct", "named", "error", "time", "array", "array2", "array3", "nested", "bool"]
 TYPES = [0, 1, 100, 101, 102, 103, 104, 105, 106, 107, 121, 122, 123, 124, 129, 130, 181, 182, 183, 184, 185, 186, 199, 200, 201, 202, 203, 250, 255]
@@ -64,7 +64,7 @@ def cases(tier, rng):
             L(fr, "trunc", cut)
         for k in range(60 if tier == "thorough" else 4):
             L(fr, "flip", rng.randint(0, 10000))
-    for sz in (0, 1, 100, 2999, 3001, 10 ** 6, 10 ** 8, 3 * 10 ** 8):
+    for sz in (0, 1, 100, 2999, 3001, 10 ** 6, 10 ** 8):
         L("z", "zsize", sz)
     for k in (0, 1, 99, 100, 101, 102, 103, 255):
         L("z", "zkind", k)
@@ -143,8 +143,10 @@ def main(prop, tier):
         for clause, line in hits:
             e = json.loads(lines[line - 1])
             v = {"clause": clause, "line": e}
-            if clause == "AllocBounded" and e["ev"] == "live" and e.get("itype") == 200 and known.get("P12b", {}).get("status") == "open":
+            if clause in ("AllocBounded", "NoHang", "QueueNotStuck") and e["ev"] == "live" and e.get("itype") == 200 and known.get("P12b", {}).get("status") == "open":
                 kf.setdefault("P12b", []).append(v); continue
+            if clause == "ReencodeStable" and e["ev"] == "edf" and e.get("zeroelem") and known.get("P30b", {}).get("status") == "open":
+                kf.setdefault("P30b", []).append(v); continue
             violations.append(v)
         total = len(live) + len(edf)
         outcomes = {}
@@ -167,12 +169,13 @@ def main(prop, tier):
                "samples": [live[0], edf[rng.randrange(len(edf))]], "live_cases": len(live), "decoder_cases": len(edf), "decoder_outcomes": outcomes,
                "live_cases_without_their_frame": notfound, "clauses": CLAUSES + ["NoCrash"], "exhaustive": False}
         assumptions = ["the mutation grammar: length field (absolute and relative values), magic, version, type byte, truncation at every offset 8-59, body byte flips, compressed-envelope size and method, random frames; decoder: truncation, 0xff / 0x00 at every offset < 130, type tags, duplicated tails",
-                       "memory: live cases - high-water mark of the live heap above its level before the injection (sampled every 3 ms until the witness requests are done); decoder cases - bytes allocated by the call; limit 64 x input + 8 MiB",
+                       "memory: live cases - high-water mark of the live heap above its level before the injection (sampled every 3 ms until the witness requests are done); decoder cases - bytes allocated by the call; limit 64 x input + 32 MiB",
                        "inputs outside the grammar are not covered; the handshake reader is attacked in C15's replay cases"]
         vlib.write_evidence(prop, tier, "exploration", cov, assumptions, time.time() - t0, violations=len(violations))
         for k, items in sorted(kf.items()):
             e = items[0]["line"]
-            print("KNOWN-FINDING: property=%s %s %s (%d case(s), e.g. declared size %d for %d bytes: %d KiB allocated)" % (prop, k, known[k]["line"].split(" ", 3)[-1][:220], len(items), e["l"]["arg"], e["injected"], e["allockb"]))
+            eg = ("declared size %d for %d bytes: %d KiB allocated" % (e["l"]["arg"], e["injected"], e["allockb"])) if e["ev"] == "live" else ("value %s mutation %s(%s)" % (e["e"]["value"], e["e"]["mut"], e["e"]["arg"]))
+            print("KNOWN-FINDING: property=%s %s %s (%d case(s), e.g. %s)" % (prop, k, known[k]["line"].split(" ", 3)[-1][:220], len(items), eg))
         for v in violations[:10]:
             e = v["line"]
             path = vlib.save_replay(prop, "host_%s_%s" % (e["p"], v["clause"]), v)
